@@ -12,6 +12,9 @@
 #include "vc.h"
 #include <limits.h>
 #include "c15_libc.h"
+#ifdef REPLAY
+#include "igris/util/numconvert.c"   /* native runs: vt100.h helpers (unused by vterm.c) reference igris_i32toa */
+#endif
 #include "igris/shell/vterm.c"
 
 static void g_w(void *p, const char *s, unsigned n) { (void)p; (void)s; (void)n; }
